@@ -4,7 +4,10 @@ through a generated history (instance 1); a twin is restored from the mnemonic /
 fresh instance on the same node while blocks and reorganisations keep arriving, the import worker
 driven batch by batch (harness/cmd/c07 over internal/sim, internal/hist, internal/gate); instance 2 is
 replayed on the extracted model and compared with the chain specification; at the end both instances
-are brought to the same tip and the twin is compared with the original."""
+are brought to the same tip and the twin is compared with the original.
+The bounce family (harness/cmd/c07/bounce.go): a batch runs while the node is on a side branch the handler has
+not been told about, and the node is back on the handler's chain before the handler runs again (worker parked
+in front of the batch's write transaction and again inside its commit, handler suspended all along)."""
 import importlib.util
 import json
 import os
@@ -22,10 +25,20 @@ TRUSTED = [
     "translator (in checks/C08.py consts()): the import batch size is read from /repo's source text by an anchored regular expression (ntfnshandler.go 'stop = ws.SyncedHeight + N') and passed to the model driver; a missing anchor fails the check",
     "Go harness: harness/internal/sim, harness/internal/hist (generator, projections, importremove.go, irdrive.go), harness/internal/gate (DB wrapper that parks the import worker after each of its write transactions), harness/cmd/c07",
     "hooks (build tag verif): masswallet/hooks_verif.go accessors (handler, idle barrier, volatile tip, queue length, chain fetcher)",
-    "schedule control: whether a queued announcement is processed between two batches or after the next one is decided by the handler's select; the harness records the order that happened and the model replays it",
+    "schedule control: whether a queued announcement is processed between two batches or after the next one is decided by the handler's select; the harness records the order that happened and the model replays it; "
+    "in the bounce family the worker is parked by the DB gate in front of a batch's write transaction and inside its commit, which keeps the handler suspended while the node moves",
     "environment, not verified: mass-core (chain DB, script-hash index written by the sim through SubmitAddrIndex, CheckScriptHashUsed), goleveldb",
     "modelled rather than verified: asyncImport / filterTxForImporting / insertMinedTxForImporting / disconnectBlock cursor pull-back / worker task handling at record level; key derivation and gap-limit discovery are NOT modelled (the discovered script hashes are an input of the model; the harness checks that every address of the original that the chain index calls used was discovered); the pending set and the handler's mempool bookkeeping (heightAdded / expiredMempool) are not modelled",
 ]
+
+
+def token(h):
+    """history id -> the -list token of harness/cmd/c07"""
+    if h >= 700000:
+        return "%s%d" % (("BF", "BZ")[h % 2], h)
+    if h >= 600000:
+        return "B%d" % h
+    return ("L%d" % h) if h >= 500000 else str(h)
 
 
 def main(tier, replay=None):
@@ -44,8 +57,10 @@ def main(tier, replay=None):
         return c.finish(TRUSTED, no_input_break="extraction/OCaml build of the Import/Remove model failed: " + err[-1500:])
 
     n, nlong = (220, 6) if tier == "quick" else (1200, 36)
+    nb, nbl = (64, 6) if tier == "quick" else (480, 40)
     if c.escalated:   # a modelled Go function changed since the pin (c.drift): look harder
         n, nlong = n * 3, nlong * 2
+        nb, nbl = nb * 3, nbl * 2
     impl = os.path.join(c.workdir, "impl.txt")
     stats = ""
     if replay:
@@ -58,7 +73,7 @@ def main(tier, replay=None):
                 rc, o, e = V.sh(["timeout", "280", outs[0], "-scenario", str(r["scenario"])], timeout=300)
             elif "history" in r:
                 h = r["history"]
-                rc, o, e = V.sh(["timeout", "280", outs[0], "-worker", "-list", ("L%d" % h) if h >= 500000 else str(h)], timeout=300)
+                rc, o, e = V.sh(["timeout", "280", outs[0], "-worker", "-batch", str(batch), "-list", token(h)], timeout=300)
             else:
                 continue
             lines.append(o if o.endswith("\n") or not o else o + "\n")
@@ -71,7 +86,8 @@ def main(tier, replay=None):
         if rc != 0:
             return c.finish(TRUSTED, no_input_break="harness cmd/c07 -scenario 1/2 failed to run: " + (o + e)[-1500:])
         d2 = os.path.join(c.workdir, "random.txt")
-        rc, o, e = V.sh([outs[0], "-n", str(n), "-long", str(nlong), "-out", d2, "-j", str(V.NCPU)], timeout=3000)
+        rc, o, e = V.sh([outs[0], "-n", str(n), "-long", str(nlong), "-bounce", str(nb), "-blong", str(nbl), "-batch", str(batch),
+                         "-out", d2, "-j", str(V.NCPU)], timeout=3000)
         stats = e.strip().splitlines()[-1] if e.strip() else ""
         if rc != 0:
             return c.finish(TRUSTED, no_input_break="harness cmd/c07 failed to run: " + (o + e)[-1500:])
@@ -87,6 +103,28 @@ def main(tier, replay=None):
     # must drop the import task
     rc, mu, me = V.sh("%s %d %d unfixed < %s" % (exe, batch, cap, impl), timeout=3000)
     abandon_seen = rc == 0 and any(l.split("\t")[0] == "M" and l.split("\t")[6] == "abandon" for l in mu.splitlines() if l.startswith("M\t8"))
+    # the bounce family: the model of the code BEFORE the tip comparison (notip) must end wrong on some of these
+    # histories (a quiescent report that differs from the chain specification); where the implementation follows
+    # that model instead of the repaired one, the violation is named after the property, not after the first
+    # differing line
+    rc, mn, me = V.sh("%s %d %d notip < %s" % (exe, batch, cap, impl), timeout=3000)
+    bounce_ids = sorted(h for h in hist if 600000 <= h < 800000)
+    notip_wrong, impl_wrong = set(), {}
+    if rc == 0:
+        for l in mn.splitlines():
+            f = l.split("\t")
+            if f[0] == "Q" and len(f) == 8 and 600000 <= int(f[1]) < 800000 and f[4] == "1":
+                if f[6] != f[7] and f[6] != "error":
+                    notip_wrong.add(int(f[1]))
+                if f[5] != f[7] and f[5] == f[6] and int(f[1]) not in impl_wrong:
+                    impl_wrong[int(f[1])] = (f[3], f[5], f[7])
+    for h, (w, im, spec) in impl_wrong.items():
+        if h in bad and bad[h][0].startswith("model:"):
+            bad[h] = ("import-bounce:stale-ledger",
+                      "wallet %s is ready and reports [%s] but the best chain pays [%s]: a rescan batch ran while the node was on a side branch the "
+                      "handler had not been told about, committed what it read there, and the node was back on the handler's chain before the handler "
+                      "ran again (the implementation follows the model of the code WITHOUT the comparison of the node's block at the batch's upper "
+                      "height with the synced block; first differing line: %s)" % (w, im[:300], spec[:300], bad[h][1][:200]))
     twins = sum(1 for l in mo.splitlines() if l.startswith("C\t") and "twin-equals-original" in l)
     multi = sum(1 for l in mo.splitlines() if l.startswith("M\t") and l.split("\t")[5].startswith("importing:") and l.split("\t")[4] == "ok")
 
@@ -96,7 +134,7 @@ def main(tier, replay=None):
             rep = {"scenario": h - 800000, "kind": key, "lines": [l for l in hist.get(h, []) if l[0] not in "BTIO"][-200:]}
             rep["rerun"] = "/verif/build/bin/c07 -scenario %d" % rep["scenario"]
         else:
-            rep["rerun"] = "VERIF_SEED=%d /verif/build/bin/c07 -worker -list %s" % (c.seed, ("L%d" % h) if h >= 500000 else str(h))
+            rep["rerun"] = "VERIF_SEED=%d /verif/build/bin/c07 -worker -batch %d -list %s" % (c.seed, batch, token(h))
         c.violation(key, what, rep)
     brk = None
     short = [h for h in hist if h < 500000]
@@ -109,10 +147,16 @@ def main(tier, replay=None):
                 "two or more batches); instance 2 (fresh directory, same node, optionally one wallet of its own) restores the twin from the mnemonic or from the exported keystore JSON; in short cases a block paying the twin is delivered around the start of the import — with the handler kept INSIDE processConnectedBlock of that block (commit done, tip copy not yet updated) while the task starts, or queued right after the task was pushed; between the batches the node extends "
                 "its chain or reorganises (near the tip, or 100-159 deep below the cursor) and the announcement is queued; listing/UseWallet while importing; queries against model and chain spec; 2-6 further steps; "
                 "finally instance 1 is reopened, caught up to the same tip, and report / staking+binding rows / used addresses of twin and original are compared. Plus directed scenarios: C07_import_abandoned_refuted's witness, and the single-batch import started while the handler is mid-block. "
+                "Bounce family (C07_import_bounce_refuted's shape, ids 600000+ short / 700000+ long): the worker is parked in FRONT of the write transaction of one batch (handler suspended); the node "
+                "disconnects 1-3 blocks (long cases: the blocks around height 1000) and connects a side branch of depth-1..depth+1 blocks that pays the twin, spends one of its coins, both, or neither; the batch runs "
+                "and is parked again inside its commit / roll-back; the node disconnects the side branch, connects all or the lower part of the old blocks again and 0-2 new ones; the side tip (stale) or the "
+                "current tip is announced or nothing; then everybody is released, the import is driven to its end, queries against model and chain spec, further steps, twin vs original. "
                 "distinct_nontrivial = distinct reports with at least one listed coin. " + stats,
         "queries": st["nq"], "quiescent_queries_checked_against_spec": st["nquiet"], "announcements": st["nproc"],
         "import_steps": st["nsteps"], "batches_that_did_not_finish_the_import": multi, "twin_vs_original_comparisons_equal": twins,
         "import_batch_size": batch,
+        "bounce_histories": len(bounce_ids),
+        "bounce_histories_on_which_the_model_without_the_tip_comparison_ends_wrong": len(notip_wrong),
         "samples": [sample],
         "disagreements_checked": st["nq"] + st["nproc"] + st["nsteps"] + twins,
         "mismatching_histories": len(bad),
@@ -122,6 +166,8 @@ def main(tier, replay=None):
                      "spent-by-pending flags and pending staking/binding rows are not compared between twin and original (the original remembers reorganised-away transactions)"]
     if not replay and not abandon_seen and not c.violations:
         brk = "the directed scenario no longer makes the model of the code as found drop the import task (C07_import_abandoned_refuted's witness)"
+    if not replay and not brk and not c.violations and bounce_ids and not notip_wrong:
+        brk = "the bounce family no longer reaches the defect's shape: on none of its histories does the model of asyncImport without the tip comparison end with a wrong report (C07_import_bounce_refuted's witness family)"
     if not proofs_ok and not c.violations and not brk:
         brk = "proof obligations of Properties/C07.v no longer check: " + str(c.proof_break)
     return c.finish(TRUSTED, no_input_break=brk)
